@@ -1525,3 +1525,167 @@ Definition texts_of (r : pres (list block)) : option (list (list bytes * list (b
   | POk bl => Some (map (fun b => (fst b, map (fun g => (fst g, map t_text (snd g))) (snd b))) bl)
   | _ => None
   end.
+
+(* ================= snippet imports at directive level: the lines of the snippet, then the rest ================= *)
+(* An `import <snippet>` standing where a directive may stand, the snippet body being well-formed
+   directive lines, followed by ANY token [nxt] that does not carry the mark of this import — a token
+   of the importing text, or, on the RETURN from a nested import, a token of the enclosing snippet
+   (which carries the mark of an EARLIER import, a smaller number) — whatever the definition-site
+   file and line numbers of the body and of [nxt] are (the body may be defined above, below or on the
+   very line of [nxt]): the marked body satisfies the guard of the structure theorem with [nxt] as the
+   token that follows it, and the parser consumes it as exactly those lines, one directive each,
+   leaving [nxt] to start the next line. *)
+Section SnippetLines.
+Variable env : list (bytes * bytes).
+Variable maxi : N.
+Variable globs : list ((N * bytes) * list N).
+Variable files : list (N * option (list token)).
+
+Definition marked (m : N) (ts : list token) : Prop := Forall (fun t => t_imp t = m) ts.
+
+Lemma line_ok_marked n m : forall seg d nest, t_imp d = m -> marked m seg ->
+  line_ok (set_imp n d) (map (set_imp n) seg) nest = line_ok d seg nest.
+Proof.
+  induction seg as [|x r IH]; intros d nest Hd Hm; [reflexivity|].
+  inversion Hm as [|? ? Hx Hr]; subst.
+  cbn [map line_ok]. change (t_text (set_imp n x)) with (t_text x).
+  destruct (imported_interior d x n ltac:(congruence)) as [Hnl _]. rewrite Hnl.
+  rewrite !(IH x) by assumption. reflexivity.
+Qed.
+
+Lemma last_map_set_imp n : forall seg d, last (map (set_imp n) seg) (set_imp n d) = set_imp n (last seg d).
+Proof.
+  induction seg as [|x r IH]; intros d; [reflexivity|].
+  cbn [map]. rewrite !last_cons_def. apply IH.
+Qed.
+
+Lemma last_marked m : forall seg d, t_imp d = m -> marked m seg -> t_imp (last seg d) = m.
+Proof.
+  induction seg as [|x r IH]; intros d Hd Hm; [exact Hd|].
+  inversion Hm; subst. rewrite last_cons_def. apply IH; assumption.
+Qed.
+
+Lemma lines_ok_marked n m nxt : forall ls rb0,
+  marked m (flat_lines ls) -> lines_ok ls rb0 = true ->
+  t_imp nxt <> n -> beq (t_text nxt) LBRACE = false ->
+  lines_ok (map (tg_line (Some n)) ls) nxt = true.
+Proof.
+  induction ls as [|[d seg] r IH]; intros rb0 Hm Hok Hnx Hlb; [reflexivity|].
+  rewrite flat_lines_cons in Hm. cbn [fst snd] in Hm.
+  inversion Hm as [|? ? Hd Hm']; subst. apply Forall_app in Hm' as [Hseg Hr].
+  cbn [lines_ok] in Hok. repeat (apply andb_true_iff in Hok as [Hok ?]).
+  rename H into Hrest, H0 into Hfol, H1 into Hline, H2 into Himp.
+  cbn [map tg_line tg fst snd lines_ok]. change (tg (Some n)) with (set_imp n) in *. change (t_text (set_imp n d)) with (t_text d).
+  rewrite Hok, Himp, (line_ok_marked n (t_imp d)), Hline by (reflexivity || assumption). cbn [andb].
+  rewrite (IH rb0 Hr Hrest Hnx Hlb), andb_true_r.
+  rewrite last_map_set_imp. unfold follow_ok in *.
+  destruct r as [|[d' seg'] r'].
+  - cbn [map head_after]. rewrite Hlb. cbn [negb andb].
+    apply (imported_boundary_r (last seg d) nxt n Hnx).
+  - cbn [map head_after tg_line tg fst] in *. change (t_text (set_imp n d')) with (t_text d').
+    apply andb_true_iff in Hfol as [H1 H2]. rewrite H1. cbn [andb].
+    rewrite flat_lines_cons in Hr. cbn [fst] in Hr. inversion Hr as [|? ? Hd' _]; subst.
+    destruct (imported_interior (last seg d) d' n) as [Hnl _]; [rewrite Hd'; apply last_marked; [reflexivity|assumption]|].
+    rewrite Hnl. exact H2.
+Qed.
+
+Theorem import_snippet_lines done imp arg nxt rest pat ls rb0 m f st :
+  at_end st done (imp :: arg :: nxt :: rest) -> t_text imp = IMPORT ->
+  import_ready env globs files st imp arg (nxt :: rest) pat (flat_lines ls) ->
+  (maxi <? p_imports st + 1)%N = false ->
+  marked m (flat_lines ls) -> lines_ok ls rb0 = true ->
+  t_imp nxt <> (p_imports st + 1)%N -> beq (t_text nxt) LBRACE = false ->
+  (length (flat_lines ls) < f)%nat ->
+  let n := (p_imports st + 1)%N in
+  let ls' := map (tg_line (Some n)) ls in
+  lines_ok ls' nxt = true /\
+  directives env maxi globs files (S (length ls + f)) st =
+  directives env maxi globs files f
+    (st_with (st_imp st (done ++ flat_lines ls' ++ nxt :: rest) (Z.of_nat (length done) - 1))
+             (done ++ exp_lines env ls' ++ nxt :: rest) (Z.of_nat (length (done ++ exp_lines env ls')) - 1)
+             (push_lines env (p_btoks st) ls')).
+Proof.
+  intros Hend Himp Hready Hcap Hm Hok Hnx Hlb Hf n ls'.
+  assert (Hok' : lines_ok ls' nxt = true) by (apply (lines_ok_marked n m nxt ls rb0); assumption).
+  split; [exact Hok'|].
+  rewrite (directives_import env maxi globs files _ _ _ _ _ _ (length ls + f) _ Hend Himp Hready Hcap).
+  fold n. change (set_imp n) with (tg (Some n)). rewrite <- (flat_lines_tg (Some n) ls). fold ls'.
+  set (st1 := st_imp st (done ++ flat_lines ls' ++ nxt :: rest) (Z.of_nat (length done) - 1)).
+  assert (Hend1 : at_end st1 done (flat_lines ls' ++ nxt :: rest)) by (split; reflexivity).
+  assert (Hlen : length ls' = length ls) by apply map_length.
+  assert (Hfl : length (flat_lines ls') = length (flat_lines ls)).
+  { unfold ls'. rewrite flat_lines_tg. apply map_length. }
+  rewrite <- Hlen.
+  rewrite (directives_lines env maxi globs files ls' done nxt rest f st1 Hend1 Hok' ltac:(lia)).
+  reflexivity.
+Qed.
+End SnippetLines.
+
+Module ReturnExample.
+Import String. Local Open Scope string_scope.
+(* the outer snippet is defined ABOVE the inner one: on return from `import inner` the next token,
+   `root`, carries the mark 1 of the first import and a line number SMALLER than that of `gzip` *)
+Definition split := bs "(outer) {
+	import inner
+	root /srv
+}
+(inner) {
+	gzip
+}
+a.com {
+	import outer
+}
+".
+Definition inline := bs "a.com {
+	gzip
+	root /srv
+}
+".
+Definition tk (l : Z) (s : string) (i : N) : token := {| t_file := 0; t_line := l; t_text := bs s; t_imp := i; t_envnl := 0%Z |}.
+Definition done := [tk 1 "(outer)" 0; tk 1 "{" 0; tk 2 "import" 0; tk 2 "inner" 0; tk 3 "root" 0; tk 3 "/srv" 0; tk 4 "}" 0;
+                    tk 5 "(inner)" 0; tk 5 "{" 0; tk 6 "gzip" 0; tk 7 "}" 0; tk 8 "a.com" 0; tk 8 "{" 0].
+Definition imp := tk 2 "import" 1.
+Definition arg := tk 2 "inner" 1.
+Definition nxt := tk 3 "root" 1.
+Definition rest := [tk 3 "/srv" 1; tk 10 "}" 0].
+Definition ls : list dline := [(tk 6 "gzip" 0, [])].
+Definition st : pst :=
+  {| p_tokens := done ++ imp :: arg :: nxt :: rest; p_cursor := 12%Z; p_keys := [bs "a.com"]; p_btoks := []; p_eof := false;
+     p_snips := [(bs "outer", [tk 2 "import" 0; tk 2 "inner" 0; tk 3 "root" 0; tk 3 "/srv" 0]); (bs "inner", [tk 6 "gzip" 0])];
+     p_imports := 1 |}.
+End ReturnExample.
+
+(* the line structure of a printed text is the one written, whatever the values contain: a token
+   printed with a line break after it ends its line, one printed with a space does not — for every
+   text that can be written inside quotes, line breaks and backslash-line-break continuations included *)
+Lemma nth_error_app_len {A} (a : list A) x r : nth_error (a ++ x :: r) (length a) = Some x.
+Proof. induction a; cbn; auto. Qed.
+Lemma nth_error_app_len_S {A} (a : list A) x y r : nth_error (a ++ x :: y :: r) (S (length a)) = Some y.
+Proof. induction a; cbn; auto. Qed.
+
+Theorem printed_value_ends_its_line ts1 t nl u ts2 :
+  forallb (fun p => okq (fst p)) (ts1 ++ (t, nl) :: u :: ts2) = true ->
+  exists a b,
+    nth_error (lex (print (ts1 ++ (t, nl) :: u :: ts2))) (length ts1) = Some a /\
+    nth_error (lex (print (ts1 ++ (t, nl) :: u :: ts2))) (S (length ts1)) = Some b /\
+    t_text a = t /\ t_text b = fst u /\
+    next_on_new_line a b = nl /\ same_line a b = negb nl.
+Proof.
+  intros Hok. rewrite (lex_print_tokens _ Hok), toks_from_app. cbn [toks_from].
+  assert (Hlen : forall l, length (toks_from 0 l ts1) = length ts1).
+  { clear. induction ts1 as [|x r IH]; intros l; cbn [toks_from length]; [reflexivity|]. rewrite IH. reflexivity. }
+  rewrite <- (Hlen 1%Z).
+  eexists. eexists. split; [apply nth_error_app_len|]. split; [apply nth_error_app_len_S|].
+  split; [reflexivity|]. split; [reflexivity|].
+  unfold next_on_new_line, same_line, tok_breaks, adv. cbn [t_file t_imp t_line t_text t_envnl fst snd].
+  rewrite !N.eqb_refl. cbn [negb orb andb].
+  destruct nl; [split; [apply Z.ltb_lt; lia|apply Z.eqb_neq; lia]|split; [apply Z.ltb_ge; lia|apply Z.eqb_eq; lia]].
+Qed.
+
+
+(* an expanded token ends where it was written *)
+Lemma env_expanded_token_ends_where_written env t u :
+  tok_breaks (exp_tok env t) = (count_nl (t_text t) - t_envnl t)%Z /\
+  same_line (exp_tok env t) u =
+    ((t_file t =? t_file u) && (t_imp t =? t_imp u) && (t_line t + (count_nl (t_text t) - t_envnl t) =? t_line u)%Z).
+Proof. split; [apply tok_breaks_retext|unfold exp_tok; rewrite same_line_retext_l; reflexivity]. Qed.
